@@ -9,6 +9,7 @@ import (
 
 	"verifharness/appsys"
 	"verifharness/nfrace"
+	"verifharness/notifres"
 	"verifharness/sysrun"
 	"verifharness/vh"
 )
@@ -79,6 +80,7 @@ func TestCheck(t *testing.T) {
 		st, fs := nfrace.Run(t, race)
 		nfrace.Report(run, st, fs)
 	}
+	notifres.Judge(t, env, run, "C04") // a delivered notification reported as failed is re-sent without any change
 	if err := run.Finish("random whole-instance scenarios (config, alert timelines, receiver fault scripts, silences, nflog GC) run under synctest virtual time; one case per aggregation group = its event list with observed outputs; non-trivial = at least 2 flushes and 1 delivered notification"); err != nil {
 		t.Fatal(err)
 	}
